@@ -221,6 +221,36 @@ def load_known() -> list[dict]:
         return json.load(f).get("findings", [])
 
 
+def run_known_regressions(check: "Check", known: list[dict]) -> dict:
+    """Re-run the stored failing case of every listed (status=known) finding of this property.
+
+    The finding is reported as KNOWN-FINDING when its case still fails the same way; if it no
+    longer does (the defect was repaired) that is only noted - a fixed tree must not fail.
+    """
+    hits = {}
+    for f in known:
+        if f.get("status") != "known" or f.get("property") != check.pid or not f.get("replay"):
+            continue
+        path = os.path.join(VERIF, f["replay"])
+        try:
+            with open(path) as fh:
+                doc = json.load(fh)
+        except OSError as exc:
+            raise HarnessError(f"known finding {f['id']}: cannot read {path}: {exc}") from exc
+        payload = run_one_forked(check.run, doc["case"], check.per_run_timeout_s * 2)
+        if not payload.get("ok"):
+            raise HarnessError(f"known finding {f['id']}: regression case failed in the harness: {payload.get('error')}\n{payload.get('trace', '')}")
+        mine = [v for v in payload["result"].get("violations", []) if match_known(check.pid, v, [f])]
+        other = [v for v in payload["result"].get("violations", []) if not match_known(check.pid, v, known)]
+        if other:
+            raise HarnessError(f"known finding {f['id']}: its regression case now shows a different violation: {other[0]}")
+        if mine:
+            hits[f["id"]] = {"finding": f, "example": mine[0]}
+        else:
+            print(f"[rsim] note: known finding {f['id']} no longer reproduces on this tree", flush=True)
+    return hits
+
+
 def match_known(pid: str, violation: dict, known: list[dict]) -> dict | None:
     """A violation is known iff a listed (not fixed) finding has the same property, clause and key.
 
@@ -260,6 +290,7 @@ def run_check(check: Check, tier: str, seed: int, budget_s: float | None = None,
     print(f"[rsim] check={check.pid} tier={tier} VERIF_SEED={seed} budget={budget_s:.0f}s slots={slots}", flush=True)
     check.setup(tier)
     known = load_known()
+    regress_hits = run_known_regressions(check, known)
     pool = ForkPool(slots)
     results: dict[int, dict] = {}
     cases: dict[int, dict] = {}
@@ -375,9 +406,13 @@ def run_check(check: Check, tier: str, seed: int, budget_s: float | None = None,
             return 2
         exit_code = 1
 
+    for fid, hit in regress_hits.items():
+        known_hits.setdefault(fid, {"finding": hit["finding"], "count": 0, "example": hit["example"]})
+        known_hits[fid]["regression_case"] = True
     for hit in known_hits.values():
         f = hit["finding"]
-        print(f"KNOWN-FINDING: property={check.pid} {f['id']}: {f['summary']} (seen {hit['count']}x this run)", flush=True)
+        how = f"seen {hit['count']}x in this run's generated cases" + ("; fixed regression case reproduces" if hit.get("regression_case") else "")
+        print(f"KNOWN-FINDING: property={check.pid} {f['id']}: {f['summary']} ({how})", flush=True)
 
     if write_evidence:
         write_evidence_file(check, tier, seed, agg, results, cases, wall_total, walls, len(violations), known_hits, slots)
